@@ -5,7 +5,7 @@ from ..core import hx
 PROOF_MODULE = "Nlmodel.Proofs.C13"
 PROOF_FILES = ["Nlmodel/Proofs/C13.lean", "Nlmodel/Model/Value.lean", "Nlmodel/Model/VM.lean", "Nlmodel/Spec/Eval.lean"]
 THEOREM_FILE = PROOF_FILES[0]
-LEVEL_TEXT = ("Lean theorems: index normalisation is exactly 'from the front for i >= 0, from the back for i < 0, error outside [-len, len)'; a non-integer index is a type error and an out-of-range one an index error, with no state change (the error result carries no store); a write through an address is observed through every alias, changes exactly one position and no other address or variable; string replacement is by character position. The store operations are tied to vm.rs by evaluating, for arrays of length 0-6 and strings of 0-6 code points of 1-4 bytes, EVERY index from -(len+2) to len+2 for read, write, write through an alias, write inside a callee, lengte, with every value type as index and as stored value, on the real interpreter, the definitional semantics and the machine model, plus an independent expectation computed from Python list semantics. MACHINE = SEMANTICS on every read and write (C13_index_read_agrees, C13_index_write_agrees; part of the forward simulation of C01 stage 5): under the cell-wise relation between the store of the semantics and the machine heap (injective address map), a read yields related values and a write changes the ONE cell both aliases denote and re-establishes the relation for every other array, string and variable.")
+LEVEL_TEXT = ("Lean theorems: index normalisation is exactly 'from the front for i >= 0, from the back for i < 0, error outside [-len, len)'; a non-integer index is a type error and an out-of-range one an index error, with no state change (the error result carries no store); a write through an address is observed through every alias, changes exactly one position and no other address or variable; string replacement is by character position. The store operations are tied to vm.rs by evaluating, for arrays of length 0-6 and strings of 0-6 code points of 1-4 bytes, EVERY index from -(len+2) to len+2 for read, write, write through an alias, write inside a callee, lengte, with every value type as index and as stored value, on the real interpreter, the definitional semantics and the machine model, plus an independent expectation computed from Python list semantics. MACHINE = SEMANTICS on every read and write (C13_index_read_agrees, C13_index_write_agrees; part of the forward simulation of C01 stage 5): under the cell-wise relation between the store of the semantics and the machine heap (injective address map), a read yields related values and a write changes the ONE cell both aliases denote and re-establishes the relation for every other array, string and variable. SESSION 7: BY CHARACTER, NOT BYTE as a theorem: Model/Utf8.lean mirrors the byte-level operations of vm.rs (chars().count(), char_indices().nth(), len_utf8, replace_range, isize/usize bounds logic) on UTF-8 byte lists; C13_bytes_count_characters, C13_bytes_locate_character, C13_bytes_read_is_character_read, C13_bytes_write_is_character_write hold for every text, index and replacement, and C13_machine_read/write_is_byte_read/write show that the machine model's string operations ARE these byte-level functions on the bytes of the stored text. The byte-level model is compared with the real interpreter on raw bytes (driver command utf8) for random texts over code points of every width incl. the boundary code points.")
 LEVEL_NOTE = ("Aliasing across calls (an alias held by a caller, passed as an argument, returned, stored in a global, nested in another array) is inside the C01 simulation since stage 6 (C01_heap_and_calls_*: shared-by-reference store on the semantics side, cell-wise heap relation on the machine side, kept through every collection). Trusted: Lean kernel; Rust std's chars()/char_indices()/replace_range agree with code-point lists (exercised with 1-4 byte code points, not proved); 'leaves the sequence unchanged after an error' is a theorem on the model and is observable on the implementation only through the error kind (a run ends at its first error).")
 TECHNIQUE = "Lean 4 proof (index normalisation, aliasing at store level) + complete index enumeration against the real interpreter"
 RULE = ("for every length 0..6 and every index in [-(len+2), len+2]: array read, write, write via alias, write in callee, nested "
@@ -110,6 +110,7 @@ def run(res, tier, rng, table_diffs=()):
                 lines.append("stel c = s; c[%s] = s[%s];" % (lit(rng.range(-2, 2)), lit(rng.range(-2, 2))))
         lines.append("[a, b, s]")
         cases.append(("\n".join(lines), None))
+    byte_level(res, tier, rng)
     rs = diff.eval_all([c[0] for c in cases], budget=100000)
     reported = 0
     for (src, exp), r in zip(cases, rs):
@@ -124,6 +125,79 @@ def run(res, tier, rng, table_diffs=()):
             res.violation("array/string operation gives a wrong result" if wrong or kind != "model-mismatch" else "machine model differs from vm.rs",
                           dict(kind="oracle" if wrong else kind, input=src, expected=exp, impl=r["impl"], spec=r["spec"], model=r["model"], detail=detail),
                           no_input=(not wrong and kind == "model-mismatch"))
+
+
+WIDE = ["a", "z", "0", "é", "ß", "ÿ", "€", "日", "\u0800", "\uffff", "😀", "\U00010000", "\U0010ffff", "\x7f", "\x80", "\u07ff"]
+
+
+def byte_level(res, tier, rng):
+    """the byte-level UTF-8 model (`Model/Utf8.lean`: countChars, nthSpan, byteIndexGet/Set = chars().count(),
+    char_indices().nth(), replace_range) on the RAW BYTES of a text vs the real interpreter on that text: read, write with
+    replacements of 0..3 characters of every width (same byte size / different character count included), length after
+    the write, order and equality.  The theorems `C13_bytes_*` say the byte-level model equals the character-level one."""
+    def text(k):
+        return "".join(rng.pick(WIDE) for _ in range(k))
+    srcs, mreq, post = [], [], []
+    n = 500 if tier == "quick" else 20000
+    for _ in range(n):
+        t = text(rng.below(7))
+        i = rng.range(-(len(t) + 2), len(t) + 2)
+        c = rng.below(5)
+        tb = "x" + t.encode("utf-8").hex()
+        if c == 0:
+            srcs.append('stel s = "%s"; s[%s]' % (t, lit(i)))
+            mreq.append("utf8 get %s %d" % (tb, i))
+            post.append("get")
+        elif c in (1, 2):
+            r = text(rng.pick([0, 1, 1, 2, 3]))
+            srcs.append('stel s = "%s"; stel r = "%s"; s[%s] = r; [s, lengte(s), lengte(r), s == "%s"]' % (t, r, lit(i), t))
+            mreq.append("utf8 set %s %d x%s" % (tb, i, r.encode("utf-8").hex()))
+            post.append(("set", t, r))
+        elif c == 3:
+            u = text(rng.below(4)) if rng.chance(2, 3) else t[:rng.below(len(t) + 1)] + text(rng.below(2))
+            srcs.append('["%s" < "%s", "%s" == "%s", "%s" >= "%s"]' % (t, u, t, u, t, u))
+            mreq.append("utf8 lt %s x%s" % (tb, u.encode("utf-8").hex()))
+            post.append(("lt", tb, "x" + u.encode("utf-8").hex()))
+        else:
+            srcs.append('lengte("%s")' % t)
+            mreq.append("utf8 len %s" % tb)
+            post.append("len")
+    impl = core.impl(["eval 100000 %s" % hx(p) for p in srcs])
+    mod = core.model(mreq)
+    # second round of model questions: length of the written text, equality
+    q2, where = [], []
+    for k, (pk, m) in enumerate(zip(post, mod)):
+        if isinstance(pk, tuple) and pk[0] == "set" and m.startswith("ok "):
+            q2 += ["utf8 len " + m[3:], "utf8 eq %s x%s" % (m[3:], pk[1].encode("utf-8").hex())]
+            where.append(k)
+        elif isinstance(pk, tuple) and pk[0] == "lt":
+            q2 += ["utf8 eq %s %s" % (pk[1], pk[2]), "utf8 lt %s %s" % (pk[2], pk[1])]
+            where.append(k)
+    a2 = core.model(q2) if q2 else []
+    second = {k: (a2[2 * j], a2[2 * j + 1]) for j, k in enumerate(where)}
+    reported = 0
+    jn = {"true": "b:ja", "false": "b:nee"}
+    for k, (src, pk, io, m) in enumerate(zip(srcs, post, impl, mod)):
+        io = diff.obs(io).split(" | ")[0]
+        if pk == "get":
+            exp = "ok s:" + m[3:] if m.startswith("ok ") else m
+        elif pk == "len":
+            exp = "ok i:" + m
+        elif pk[0] == "set":
+            if m.startswith("ok "):
+                ln, eq = second[k]
+                exp = "ok a:[s:%s i:%s i:%d %s]" % (m[3:], ln, len(pk[2]), jn[eq])
+            else:
+                exp = m
+        else:
+            eq, gt = second[k]
+            exp = "ok a:[%s %s %s]" % (jn[m], jn[eq], jn["true" if (eq == "true" or gt == "true") else "false"])
+        res.count("byte-level:" + (pk if isinstance(pk, str) else pk[0]))
+        res.seen(src, nontrivial=True)
+        if io != exp and reported < 4:
+            reported += 1
+            res.violation("a text operation does not act on characters the way the byte-level UTF-8 model (proved equal to the character-level one) does",
+                          dict(kind="oracle", input=src, expected=exp, impl=io, generator="byte-level"))
 
 
 def replay(res, rp):
